@@ -341,7 +341,7 @@ Qed.
 Lemma dim_dom_bounds d sh : dim_dom d sh = true -> 1 <= sh <= alen d /\ sh <= P52.
 Proof.
   unfold dim_dom. intro H. repeat (apply andb_true_iff in H; destruct H as [H ?]).
-  apply Z.leb_le in H. apply Z.leb_le in H1, H2. lia.
+  apply Z.leb_le in H. apply Z.leb_le in H2, H3. lia.
 Qed.
 
 Lemma getMaxExtent_ok d sh : dim_dom d sh = true ->
